@@ -95,7 +95,7 @@ fn gen(seed: u64, tier: Tier) -> Case {
             }
         };
         let addr = if r.chance(1, 60) { AddrSpec::Ent(Cred::Script(0)) } else { sess::gen_key_addr(&mut r, nkeys, byron_pm) };
-        w.utxos.push(Utxo { tx: 1 + i as u32 / 3, ix: (i % 3) as u32 + if r.chance(1, 10) { 255 } else { 0 }, addr, coin, empty_ma: assets.is_empty() && r.chance(1, 10), assets, datum: None, script_ref: None });
+        w.utxos.push(Utxo { tx: 1 + i as u32 / 3, ix: (i % 3) as u32 + if r.chance(1, 10) { 255 } else { 0 }, addr, coin, empty_ma: assets.is_empty() && r.chance(1, 10), assets, datum: None, script_ref: if r.chance(1, 30) { Some(0) } else { None } });
     }
     let mut seen = BTreeSet::new();
     for u in w.utxos.iter_mut() {
@@ -145,7 +145,12 @@ fn run_once(c: &Case, hash_seed: u64, out: &mut Outcome) -> Option<Vec<Vec<(Vec<
     };
     out.nontrivial = true;
     out.count("c13.ok", 1);
-    let cx = Ctx { w, k: &c.knobs, undeclared_ref_scripts: Default::default() };
+    // The statement's fee clause is "the minimum fee for its real size with one signature per distinct owning
+    // key"; the Conway surcharge for reference scripts that *spent* UTxOs happen to carry is not part of it (the
+    // batcher has no notion of it). It is left out of the fee demanded and only recorded as an observation.
+    let carriers: BTreeSet<(Vec<u8>, u64)> = (0..w.utxos.len()).filter(|i| w.utxos[*i].script_ref.is_some()).map(|i| w.outpoint(i)).collect();
+    let cx_full = Ctx { w, k: &c.knobs, undeclared_ref_scripts: Default::default() };
+    let cx = Ctx { w, k: &c.knobs, undeclared_ref_scripts: carriers };
     let mut grouping: Vec<Vec<(Vec<u8>, u64)>> = vec![];
     let mut spent: BTreeMap<(Vec<u8>, u64), usize> = BTreeMap::new();
     let mut ntx = 0;
@@ -238,6 +243,11 @@ fn run_once(c: &Case, hash_seed: u64, out: &mut Outcome) -> Option<Vec<Vec<(Vec<
                 Err(_) => continue,
             };
             out.count("c13.transactions_checked", 1);
+            if let (Ok(fee), Ok(need_full)) = (sv.fee(), oracle::min_fee(&sv, &cx_full)) {
+                if BigInt::from(fee) < need_full {
+                    out.count("c13.observation_reference_script_surcharge_not_covered", 1);
+                }
+            }
             if let (Ok(fee), Ok(need)) = (sv.fee(), oracle::min_fee(&sv, &cx)) {
                 if BigInt::from(fee) < need {
                     out.violate("C13.min_fee", if req.byron.is_empty() { "fee_below_minimum" } else { "fee_below_minimum/with_bootstrap_witness" }, format!("tx {}: fee {} < minimum {} for {} signed bytes ({} vkey + {} bootstrap); the transaction as returned with mock witnesses has {} bytes", ti, fee, need, signed.len(), req.keys.len(), req.byron.len(), raw.len()));
